@@ -455,7 +455,7 @@ where
             matchiters: Vec::new(),
             nextmatches: Vec::new(),
             text: self.text(),
-            begincharpos: self.begin(),
+            begincharpos: 0, //byte positions are converted against the resource, which yields absolute character positions already
             beginbytepos: self
                 .store()
                 .subslice_utf8_offset(text)
@@ -654,7 +654,7 @@ where
             matchiters: Vec::new(),
             nextmatches: Vec::new(),
             text: self.text(),
-            begincharpos: self.begin(),
+            begincharpos: 0, //byte positions are converted against the resource, which yields absolute character positions already
             beginbytepos: self
                 .store()
                 .subslice_utf8_offset(text)
